@@ -580,6 +580,11 @@ func (v *Validator) anyEntityDescendantOf(lhs, rhs entityLUB) bool {
 			if v.isEntityDescendant(lt, rt) {
 				return true
 			}
+			// action groups may cross action types (an action of NS::Action in a group of G::Action); the entity
+			// type hierarchy knows nothing about actions, so two action types are possibly related
+			if isActionEntity(lt) && isActionEntity(rt) {
+				return true
+			}
 		}
 	}
 	return false
